@@ -631,11 +631,15 @@ fn main() {
         }
         for (j, (crowd, ff, k)) in crowd_cases.iter().enumerate() {
             if run.mine(cfgs.len() + j) && !budget.exceeded() {
+                let t = std::time::Instant::now();
                 crowd_case(&cx, *crowd, *ff, *k);
+                if std::env::var_os("VH_C01_CROWD_ONLY").is_some() {
+                    eprintln!("crowd {crowd} farthest_first={ff} k={k}: {:.1}s", t.elapsed().as_secs_f64());
+                }
             }
         }
         for (ci, (cfg, bound)) in cfgs.iter().enumerate() {
-            if !run.mine(ci) {
+            if !run.mine(ci) || std::env::var_os("VH_C01_CROWD_ONLY").is_some() {
                 continue;
             }
             if budget.exceeded() {
